@@ -156,6 +156,21 @@ def shrink(req):
     for i, r in enumerate(R):
         if len(r.split(":")) > 7:
             yield emit(R=R[:i] + [":".join(r.split(":")[:7])] + R[i + 1:])
+    # ... or one option at a time; a type spelling loses one typedef / keyword at a time
+    for i, r in enumerate(R):
+        p = r.split(":")
+        if len(p) > 7 and "+" in p[7] or (len(p) > 7 and p[7].startswith("T")):
+            opts = p[7].split("+")
+            for k, o in enumerate(opts):
+                if len(opts) > 1:
+                    rest = opts[:k] + opts[k + 1:]
+                    yield emit(R=R[:i] + [":".join(p[:7] + ["+".join(rest)])] + R[i + 1:])
+                if o.startswith("T"):
+                    toks = re.findall(r"N|a|c|d\d+|e\d+|k|x|p", o[1:])
+                    for t in range(len(toks)):
+                        simpler = "T" + "".join(toks[:t] + toks[t + 1:])
+                        if len(simpler) > 1:
+                            yield emit(R=R[:i] + [":".join(p[:7] + ["+".join(opts[:k] + [simpler] + opts[k + 1:])])] + R[i + 1:])
     for i, h in enumerate(H):
         p = h.split(":")
         plain = ":".join([p[0], _plain(p[1]), p[2], p[3]])
@@ -175,6 +190,15 @@ KINDS = ["Buffer", "RWBuffer", "ByteAddressBuffer", "RWByteAddressBuffer", "Buff
          "StructuredBuffer", "RWStructuredBuffer", "Texture2D", "Texture2DArray", "RWTexture2D", "RWTexture2DArray",
          "TextureCube", "TextureCubeArray", "Texture3D", "RWTexture3D", "ConstantBuffer", "SamplerState",
          "SamplerComparisonState", "RaytracingAccelerationStructure", "cbuffer"]
+
+
+KIND_TEXT = {"Texture2D": "Texture2D<float4>", "StructuredBuffer": "StructuredBuffer<float4>", "ConstantBuffer": "ConstantBuffer<CbS>",
+             "RWTexture2D": "RWTexture2D<float4>", "Buffer": "Buffer<float4>"}
+SPELL_KINDS = ["Texture2D", "RWTexture2D", "StructuredBuffer", "ByteAddressBuffer", "Buffer", "ConstantBuffer", "SamplerState",
+               "BufferAddress", "RWBufferAddress", "RaytracingAccelerationStructure"]
+SPELLINGS_PLAIN = ["Ta", "Tc", "Taa", "Tca", "Tac", "TNa", "TNca", "Tk", "Tx", "Tak", "Tax", "Tckx"]
+SPELLINGS_ARRAY = ["Td3", "Te3", "Tad3", "Tcd3", "Td3a", "Td3c", "Tce3", "TNd3", "TNad3c", "Td3k", "Te3x", "Td2d3"]
+SPELLINGS_PARAM = ["Tp", "Tap", "TNd3p", "TNp"]
 
 
 def search(ctx):
@@ -216,6 +240,43 @@ def search(ctx):
         for sh in "iefgwdstcbvamz":
             out.append("\t".join(["C05.meta", tgt, "name=P0", "0", "g_a:Texture2D:-:-:0:0:e;g_c:cbuffer:-:-:0:0:e", "",
                                    f"cs_0:Compute:0{sh},1{sh}:::8.4.1", "P0:-:0"]))
+        # type spellings: every bindable kind declared through a typedef of the object, of an array of it, of a typedef,
+        # with const on the typedef / on the global, typedefs in a namespace, template argument through a typedef,
+        # `extern` written out, array of a typedef'd element, typedef'd array with a declarator dimension (2-D)
+        for kind in SPELL_KINDS:
+            templ = "<" in KIND_TEXT.get(kind, "")
+            for arr, spells in [("-", SPELLINGS_PLAIN + SPELLINGS_ARRAY + (SPELLINGS_PARAM if templ else [])),
+                                ("2", SPELLINGS_PLAIN + (["Td3", "Tce2"] if kind == "Texture2D" else []))]:
+                for sp in spells:
+                    if kind.startswith("Sampler") and any(c in sp for c in "de"):
+                        # ... and as a static sampler (one sampler: no array spelling)
+                        continue
+                    for group, bl in [("-", "0"), ("1", "1")]:
+                        has_arr = arr != "-" or any(c in sp for c in "de")
+                        if bl == "1" and (not has_arr or "Address" in kind):
+                            bl = "0"
+                        res = f"g_a:{kind}:{group}:{arr}:0:{bl}:e:{sp};g_b:Texture2D:-:-:0:0:e"
+                        twod = arr != "-" and any(c in sp for c in "de") or sp in ("Td2d3",)
+                        for mode, uses in [("name=P0", "" if twod else "0,1"), ("nopipeline", "1")]:
+                            out.append("\t".join(["C05.meta", tgt, mode, "0", res, "", f"cs_0:Compute:{uses}:::8.4.1", "P0:-:0"]))
+            if kind.startswith("Sampler"):
+                for sp in SPELLINGS_PLAIN:
+                    out.append("\t".join(["C05.meta", tgt, "name=P0", "0", f"g_a:{kind}:-:-:1:0:e:{sp}+sp5;g_b:Texture2D:-:-:0:0:e", "",
+                                           "cs_0:Compute:1:::8.4.1", "P0:-:0"]))
+        for sp in ["Ta", "Td2", "Tcd2k"]:
+            # static / struct / non-resource globals spelled through typedefs; explicit indices next to a typedef of the object
+            for r in [f"g_a:Texture2D:-:-:0:0:s:{sp}", f"g_a:RayDesc:-:-:0:0:e:{sp}"] + \
+                     ([f"g_a:struct:-:-:0:0:e:{sp}", f"g_a:Texture2D:1:-:0:0:e:gr+ri3+{sp}", f"g_a:Texture2D:1:-:0:0:e:gv+vi2+{sp}"] if sp == "Ta" else []):
+                out.append("\t".join(["C05.meta", tgt, "name=P0", "0", r + ";g_b:Texture2D:-:-:0:0:e", "", "cs_0:Compute:1:::8.4.1", "P0:-:0"]))
+        # declarations with several declarators: shared attributes / type, per-declarator dimensions and register annotations
+        for head, tail in [("g_a:Texture2D:-:-:0:0:e", "g_aj:Texture2D:-:2:0:0:e:j"), ("g_a:Texture2D:1:-:0:1:e:gr", "g_aj:Texture2D:-:2:0:1:e:ri5+j"),
+                           ("g_a:Texture2D:1:2:0:1:e", "g_aj:Texture2D:1:3:0:1:e:j"), ("g_a:Texture2D:-:-:0:0:e:Td3", "g_aj:Texture2D:-:-:0:0:e:Td3+j"),
+                           ("g_a:SamplerState:-:-:1:0:e:sp5", "g_aj:SamplerState:-:-:0:0:e:j"), ("g_a:BufferAddress:-:-:0:0:e", "g_aj:BufferAddress:-:2:0:0:e:j"),
+                           ("g_a:StructuredBuffer:2:-:0:0:e:gv+vi2", "g_aj:StructuredBuffer:2:2:0:0:e:gv+vi2+j"), ("g_a:Texture2D:-:-:0:0:s", "g_aj:Texture2D:-:-:0:0:s:j"),
+                           ("g_a:ConstantBuffer:-:-:0:0:e:TNap", "g_aj:ConstantBuffer:-:-:0:0:e:TNap+j")]:
+            for uses in ["0,1", "1", ""]:
+                for mode in ["name=P0", "nopipeline"]:
+                    out.append("\t".join(["C05.meta", tgt, mode, "0", f"{head};{tail};g_b:Texture2D:-:-:0:0:e", "", f"cs_0:Compute:{uses}:::8.4.1", "P0:-:0"]))
         # declaration shapes the allocator leaves alone
         for r in ["g_a:Texture2D:-:2x3:0:0:e", "g_a:struct:-:-:0:0:e", "g_a:Texture2D:-:u:0:0:e", "g_a:Texture2D:-:-:0:0:s",
                   "g_a:Texture2D:-:-:0:0:e:ns", "float16_t:Texture2D:-:-:0:0:e;float16_t_0:cbuffer:-:-:0:0:e",
@@ -233,6 +294,14 @@ def search(ctx):
                   "cs_0:Compute:0:::70000.0.3", "vs_0:Vertex:0:::4.2.1", "cs_0:Compute:0:::8.4.1:fd", "float16_t:Compute:0:::8.4.1"]:
             out.append("\t".join(["C05.meta", tgt, "name=P0", "0", "g_t:Texture2D:-:-:0:0:e", "", e, "P0:-:0"]))
         out.append("\t".join(["C05.meta", tgt, "name=P0", "0", "g_t:Texture2D:-:-:0:0:e", "a:0::;a::0:", "a_0:Compute:0:0,1::8.4.1", "P0:-:0"]))
+    # what the typer builds: the layer chain of every distinct resource list above (target independent)
+    seen = []
+    for line in out:
+        res = line.split("\t")[4]
+        if res not in seen:
+            seen.append(res)
+    for res in seen:
+        out.append("\t".join(["C05.layers", "-", "-", "0", res, "", "", ""]))
     return out
 
 
@@ -256,7 +325,7 @@ def custom(ctx):
 SPEC = {
     "id": "C05",
     "gens": ["SlotTables", "CompileTables", "MetaTables", "Reserved"],
-    "lean_modules": ["RsslVerif.Thm.C05"],
+    "lean_modules": ["RsslVerif.Thm.C05", "RsslVerif.Thm.C05Layers"],
     "theorems": [T + n for n in [
         "source_shape_as_modelled", "descriptor_tables_agree", "register_class_of_descriptor", "msl_entry_names_agree",
         "annot_matches_meta_hlsl", "annot_matches_meta_msl", "non_extern_global_unbound",
@@ -268,7 +337,12 @@ SPEC = {
         "entry_named_and_defined", "reported_thread_group_size_is_emitted", "stage_records_follow_properties",
         "reported_size_is_the_typers_record", "pipeline_names_distinct", "reported_name_denotes_one_symbol", "hlsl_entry_point_unambiguous",
         "reported_name_not_reserved", "name_kept_when_unique_and_free", "hlsl_cbuffer_bypasses_name_map_witness",
-        "same_leaf_name_in_two_namespaces_witness"]],
+        "same_leaf_name_in_two_namespaces_witness",
+        # Thm/C05Layers.lean: type spellings / layer chains
+        "peel_facts_as_modelled", "peels_read_layers", "descriptor_kind_count_from_layers",
+        "reflection_peel_agrees_with_allocator_peel", "buffer_address_test_agrees_with_allocator_peel",
+        "spelling_kind_count", "typed_metadata_is_peeled_metadata", "meta_bijective_hlsl_typed",
+        "typed_export_total_or_refused", "array_first_peel_misreads_typedef_arrays_witness"]],
     "harness": "c05",
     "nontrivial": nontrivial,
     "finding_key": finding_key,
@@ -277,7 +351,12 @@ SPEC = {
     "custom": custom,
     "harness_args": lambda tier, seed: [],
     "rule": "requests = self-contained shader descriptions (resource globals / cbuffers incl. empty ones / static samplers with "
-            "property sets / bindless arrays / 2-D arrays / struct globals holding resources / namespaces; bind group written "
+            "property sets / bindless arrays / 2-D arrays / struct globals holding resources / namespaces; the TYPE of a resource "
+            "global spelled directly or through typedef chains (typedef of the object, of an array of it, of a typedef, const on "
+            "the typedef or on the global, typedefs in a namespace, template argument through a typedef, extern written out, "
+            "array of a typedef'd element, typedef'd array with a declarator dimension) for every kind incl. ConstantBuffer, "
+            "static samplers, buffer addresses and bindless tables; declarations with several declarators (shared attributes, "
+            "per-declarator dimensions / register annotations); bind group written "
             "as attribute, register space, vk::binding or both; explicit indices; helper call graphs with 14 statement shapes "
             "around each mention, default arguments and global initialisers that read resources, forward declarations; "
             "0-4 pipelines: compute, vertex+pixel, mesh+pixel, task+mesh, stage properties in either order, both file "
@@ -286,7 +365,9 @@ SPEC = {
             "reserved in a target, overloaded helpers, name clashes, eight front-end error shapes incl. a second numthreads "
             "attribute) rendered to a file and compiled by the real compile() x {dx, vk, "
             "vk+buffer-address, msl} x {all, one name, no-pipeline}, plus a sweep of every reserved name of hlsl/msl names.rs "
-            "as entry-point and as resource name and an enumeration of ~8800 small inputs; the emitted HLSL is re-parsed with "
+            "as entry-point and as resource name and an enumeration of ~16000 small inputs (every spelling x kind x target); a second "
+            "stream C05.layers sends the resource declarations through the real type_check and compares the layer chain of every "
+            "global's type with the chain the model builds from the spelling; the emitted HLSL is re-parsed with "
             "the real lexer+parser (MSL: text scan) and the property's own oracle compares every metadata entry with the "
             "annotation / declared type / array length of the declaration of that name, counts entries per externally bound "
             "declaration, checks inline constant blocks, stage entry functions + the values of their thread group size "
@@ -306,7 +387,18 @@ SPEC = {
                   "description or UnsupportedObjectType, the Metal export a description or one of UnsupportedObjectType / "
                   "UnsupportedBindGroupIndex / UnboundGlobal, and an exported Metal pipeline has an api slot for every extern "
                   "global its stages reach (fix 2ba03a4); descriptor type and count depend only on declared kind and array "
-                  "layer; non-extern globals are never bound. Used flag (full): the usage fixed point loop terminates (at most n*n modifying passes over n "
+                  "layer; non-extern globals are never bound. Type spellings: a global's type is a chain of layers (array / "
+                  "modifier / object) and the three places that look through it -- process_definition, both analyse_bindings, "
+                  "is_buffer_address -- are modelled as the ordered peel operation lists re-extracted from their source; proved "
+                  "for every well-formed chain (no modifier on a modifier: the registry's assert): both exporters report the "
+                  "descriptor type of the innermost object under at most one array layer and the length of the outermost array "
+                  "layer, wherever modifier layers sit (array of const object = const array of object = const array of const "
+                  "object); for every chain at all the allocator's own peel sees exactly what the reflection's peel sees "
+                  "(unsized arrays excepted: recorded finding) and is_buffer_address is the test the allocator model makes; "
+                  "every type the typer builds for `[const] X g[dims]` over any typedef chain is such a chain with the "
+                  "declarator's dimensions outside the typedefs'; the typed builders equal the builders on peeled "
+                  "declarations, so every module-level statement holds for typed modules; a witness shows the re-ordered peel "
+                  "of seed C05-3 misreads a typedef'd table. Used flag (full): the usage fixed point loop terminates (at most n*n modifying passes over n "
                   "symbols) and equals reachability in the use graph of bodies, default arguments and global initialisers, "
                   "so is_used on Metal holds iff some stage entry point reaches the global (HLSL always reports true). "
                   "Stages: an accepted Pipeline block yields one record per stage property in property order, each pointing "
@@ -325,14 +417,22 @@ SPEC = {
         "register/attribute format strings, entry function names, reserved names, intrinsic function names, and regex facts about "
         "the DescriptorBinding literals, msl generate_pipeline, the HLSL annotation generators, build_pipeline, parse_pipeline / "
         "add_stage, parse_function_attributes, the name lookups of both exporters, simplify_cbuffers, the numthreads printers, "
-        "the formatter's attribute argument precedence and Metal's UnboundGlobal test; Gen.SlotTables, "
-        "Gen.CompileTables, Gen.Reserved",
-        "hand-written Model/Meta.lean, Model/MetaReach.lean, Model/MetaFront.lean, Model/Slots.lean, Model/Names.lean mirror the "
+        "the formatter's attribute argument precedence and Metal's UnboundGlobal test; the symbolic reader of the type peels "
+        "(data flow of the `let` statements between decl.type_id and the matched layer in both analyse_bindings, "
+        "process_definition and is_buffer_address -> lists of PeelOp; statements it does not understand become `unknown`, which "
+        "no theorem accepts) and 8 regex facts around it (count rules, make_const, register_type's modifier assert, typedef = "
+        "declarator over the parsed source type); Gen.SlotTables, Gen.CompileTables, Gen.Reserved",
+        "hand-written Model/Meta.lean, Model/MetaLayers.lean (what one peel operation does to a layer chain; how typedef steps, "
+        "const keyword, storage class and declarator dimensions build a chain), Model/MetaReach.lean, Model/MetaFront.lean, "
+        "Model/Slots.lean, Model/Names.lean mirror the "
         "Rust functions; tied to the code by the correspondence run (model answer == observation of the real compile()) and the "
         "regex facts, not by a proof about Rust",
         "Driver/C05.lean: how a request becomes the models' inputs (declaration order, registry order of structs / globals / "
-        "functions per target, use graph); checked only by the correspondence run",
-        "Spec/Meta.lean: our reader of annotation text, D3D register classes of descriptor types, reachability",
+        "functions per target, use graph, the spelling -> globalTy arguments); checked only by the correspondence run (the "
+        "layer chains by the stream C05.layers against the real type registry)",
+        "Spec/Meta.lean: our reader of annotation text, D3D register classes of descriptor types, reachability; "
+        "Spec/MetaLayers.lean: what a layer chain means for a binding (innermost object under at most one array layer, "
+        "modifiers never matter, count = outermost array length)",
         "harness oracle tables (which emitted HLSL / MSL type may be reported as which DescriptorType; static sampler and "
         "graphics state spellings) written independently of the compiler's tables; evaluator of the emitted numthreads "
         "expressions (literals, named constants, + - * /, casts)",
@@ -346,5 +446,9 @@ SPEC = {
         "no-pipeline mode on Metal emits no argument buffers: entries are compared with the input declarations only",
         "name uniqueness is per scope of the name map: bindings are reported by leaf name, so two namespaces can still "
         "contribute one name (recorded finding)",
+        "layer chains are well-formed (no modifier layer directly around a modifier layer): TypeRegistry::register_type asserts "
+        "it (fact modifierNeverWrapsModifier) and the C05.layers oracle checks it on every observed chain; modifier layers carry "
+        "no content in the model (const only is generated; row_major / unorm need matrix / float types no resource global has)",
+        "array dimensions of generated declarations are literals",
     ],
 }
